@@ -212,3 +212,17 @@ reg("C05", "E2-history-bfs",
     "with each used list): clean-up removes only recorded, unused, unmodified paths.",
     "User mutations happen between library calls. Which error is raised on a refused kind change is not claimed.",
     "DESIGN.md §4 C05")
+
+reg("C07", "E2-history-bfs",
+    "exhaustive enumeration of tamper/query sequences on real stores with a 3-state (intact/corrupt/absent) reference model",
+    "Every sequence of length 3 over 5 tamper patterns (truncate, append, rewrite same / other length, replace by "
+    "rename, each made not write-protected, mtime from a logical clock) and 7 queries (check, oids_exist with 1 "
+    "and 2 ids, hashfile.check(tree), checkout, add(verify) from a good / corrupt source) on a file object and on "
+    "a directory object x state {none, cold, warm = entry from before the tampering} x both store classes: "
+    "~1.9*10^4 sequences. Model says per query: corrupt => rejected and deleted, never materialised; intact => "
+    "accepted, bytes unchanged, local object 0o444 afterwards; verify never retains a mismatching object; "
+    "bystander objects untouched.",
+    "Tampering never restores (inode, mtime, size) and (claimed part) never keeps 0o444 - both excluded by the "
+    "property. Base-class oids_exist is not an integrity check. Checkout of an already loaded listing does not "
+    "need the stored directory object.",
+    "DESIGN.md §4 C07")
